@@ -4,6 +4,7 @@ import (
 	"context"
 	"fmt"
 	"strings"
+	"sync/atomic"
 	"time"
 
 	jsonrpc "github.com/filecoin-project/go-jsonrpc"
@@ -120,7 +121,7 @@ func keepaliveBody(s *vsched.Sched, p Param) {
 		return n
 	}
 	probeAllowed := false
-	done := false
+	var done atomic.Bool
 	s.EnvEnabled = func(name string) bool {
 		switch name {
 		case "bh-go":
@@ -133,7 +134,7 @@ func keepaliveBody(s *vsched.Sched, p Param) {
 	s.OnQuiesce = func() bool {
 		// the scenario is over once the workload has finished (healthy) or the probe has
 		// returned (silent) and everything has settled; ping loops never go quiescent
-		if (mode == "healthy" && done) || has("probe") {
+		if (mode == "healthy" && done.Load()) || has("probe") {
 			s.Stop()
 			return true
 		}
@@ -145,14 +146,14 @@ func keepaliveBody(s *vsched.Sched, p Param) {
 	}
 	s.OnStep = func() {
 		// healthy: as long as the workload is running nobody may close, reset or redial
-		if mode != "healthy" || done {
+		if mode != "healthy" || done.Load() {
 			return
 		}
 		cc, sc := w.Net.Link(0).ClosedEnds()
 		if cc || sc || len(w.Net.Dials()) > 1 {
 			s.Violate("C17: the library dropped a healthy connection (client closed=%v, server closed=%v, dials=%d) at %v with ping=%v timeout=%v server-ping=%v during %s",
 				cc, sc, len(w.Net.Dials()), s.Now(), pc, tc, sp, shape)
-			done = true
+			done.Store(true)
 		}
 	}
 	s.Finish = func() {
@@ -218,7 +219,7 @@ func keepaliveBody(s *vsched.Sched, p Param) {
 		fmt.Sscanf(shape, "call-%g", &f)
 		s.Go("caller", func() {
 			v, err := cli.Slow(context.Background(), 1, ms(f))
-			done = true
+			done.Store(true)
 			if err == nil && v == 1 {
 				obs.Set("ret", "ok")
 			} else {
@@ -229,7 +230,7 @@ func keepaliveBody(s *vsched.Sched, p Param) {
 		s.Go("caller", func() {
 			time.Sleep(7 * tc)
 			v, err := cli.Slow(context.Background(), 1, 1)
-			done = true
+			done.Store(true)
 			if err == nil && v == 1 {
 				obs.Set("ret", "ok")
 			} else {
@@ -248,7 +249,7 @@ func keepaliveBody(s *vsched.Sched, p Param) {
 			for range ch {
 				got++
 			}
-			done = true
+			done.Store(true)
 			if got == n {
 				obs.Set("ret", "ok")
 			} else {
